@@ -339,12 +339,15 @@ pub fn run_c09(ctx: &Ctx) -> Outcome {
     let mut out = Outcome::new(
         "Everything the public API reaches, run in a child process on threads with the Rust default 2 MiB stack (the smallest stack any entry \
          point of the tool uses: rayon batch workers): (1) exhaustively every fuzzer byte string of length <= 2 (65 793) x 6 protocols x 3 \
-         configurations (default; all 7 mutators unsafe at rate 1.0; EXT+buffer with safe mutators); (2) generated GenCases incl. unsafe, rates \
-         NaN / +-inf / out of range through builder and public field, ranges (0,0), min>max, up to 50 000 opcodes; (3) long exhausted inputs \
-         (1000..50 000 opcodes from empty / constant bytes: every choice falls back to index 0, deepest nesting). Oracle: Ok(non-empty); no \
-         panic (catch_unwind), no abort / stack overflow (child exit status; the killing case is identified from a per-thread breadcrumb and \
-         confirmed alone in a fresh process), emission fuel 3*max(min,max)+8 never exhausted. Non-trivial = degenerate configuration (unsafe, \
-         rate outside [0,1], min >= max, fewer than 64 entropy bytes, or >= 5000 opcodes).",
+         configurations (default; all 7 mutators unsafe at rate 1.0; EXT+buffer with safe mutators), opcode range (5,20) quick / (60,300) \
+         thorough; (2) generated GenCases incl. unsafe, rates NaN / +-inf / out of range through builder and public field, ranges (0,0), \
+         min>max, reuse histories, alternative API entry points, up to 24 000 (quick) / 50 000 (thorough) opcodes; (3) long exhausted \
+         inputs (1000..20 500 quick / ..50 000 thorough opcodes from empty / constant bytes: every choice falls back to index 0, deepest \
+         nesting). Oracle: Ok(non-empty); no panic (catch_unwind), no abort / stack overflow (child exit status; the killing case is \
+         identified from a per-thread breadcrumb and confirmed alone in a fresh process); runaway budgets never exhausted: emissions <= \
+         100*max(min,max)+10^4 and entropy draws <= 10^5 per opcode + 10^6 (far above any legitimate generation; they turn loops that \
+         keep emitting or keep drawing into deterministic failures). Non-trivial = degenerate configuration (unsafe, rate outside [0,1], \
+         min >= max, fewer than 64 entropy bytes, or >= 5000 opcodes).",
     );
     let exe = util::self_exe();
     let mut child = match Command::new(exe).args(["c09-child", &ctx.tier]).env("VERIF_SEED", ctx.seed.to_string()).env("VERIF_DIR", &ctx.verif_dir).stdout(Stdio::null()).spawn() {
